@@ -1,7 +1,8 @@
 """CrossHair harnesses for C06: the real factories are called with coefficient lists of symbolic
 lengths; `post: __return__` must hold on every path (True = rejected-or-consistent)."""
+import os
 import sys
-sys.path.insert(0, '/repo')
+sys.path.insert(0, os.environ.get('DVERIF_REPO', '/repo'))
 from dinosaur import time_integration as ti
 
 NARGS = {'low_storage_accepts_only_consistent_lengths': 3, 'butcher_tableau_accepts_only_consistent_lengths': 4}
